@@ -19,6 +19,19 @@
 (*           (a type error)}, each either called from main with a fresh    *)
 (*           global, called by its predecessor, or not called at all:      *)
 (*           programs with several INDEPENDENT type errors, for C19a.      *)
+(*  "frames" one function of NPf parameters, each with one direct use      *)
+(*           {none, scalar, array (, length)}; a recursive call with FEWER *)
+(*           arguments than parameters (0..NPf-1 arguments over {own       *)
+(*           parameters (, constant)}) or none, then length(p) of every    *)
+(*           parameter (what the callee did to an array argument is seen,  *)
+(*           what it did to a scalar is not); the main body makes a scalar *)
+(*           global g1 (value 1) and an array global g2 (one element) and  *)
+(*           calls the function TWICE with the same 0..NPf arguments over  *)
+(*           {g1, g2 (, constant)}: the omitted parameters are any mix of  *)
+(*           scalars and local arrays, and every call -- the second one    *)
+(*           and the recursive ones included -- must find them empty.      *)
+(*  "collect" sources with up to MaxSites independent errors on a grid of  *)
+(*           CLines lines x 3 places per line (C19a): see CollectProgram.  *)
 (***************************************************************************)
 EXTENDS Resolver
 
@@ -27,7 +40,12 @@ CONSTANTS NP1, NP2, NP3,  \* parameters of functions 1..3 (9: the function does 
           MaxMainCalls,
           AllowRev,       \* BOOLEAN: also generate every body reversed
           MinArgs,        \* 0 or 1: smallest number of arguments of a generated call
-          NFm             \* number of functions of the "multi" family
+          NFm,            \* number of functions of the "multi" family
+          NPf,            \* parameters of the function of the "frames" family
+          FrLen,          \* BOOLEAN: "frames" also uses length(p) as a direct use and constants as arguments
+          CLines,         \* "collect": number of source lines holding error sites
+          MaxSites,       \* "collect": largest number of error sites in one source
+          CKinds          \* "collect": the kinds of sites, a subset of {"comma", "type", "undef", "args"}
 
 Lvar(i) == [sc |-> "L", i |-> i]
 Gvar(i) == [sc |-> "G", i |-> i]
@@ -106,4 +124,31 @@ MultiProgram(ch) ==
       mcalls == ConcatSeqs([f \in 1..NFm |-> IF ch[f].l = "main"
                                              THEN <<[k |-> "call", f |-> f, args |-> <<>>]>> ELSE <<>>])
   IN [funcs |-> [f \in 1..NFm |-> [np |-> 1, body |-> fbody(f)]], main |-> mcalls]
+
+\* ---- the "frames" family ----
+FramesSlots == [i \in 1..NPf |-> [s |-> "fdir", f |-> 1, i |-> i]]
+               \o <<[s |-> "frec", f |-> 1, i |-> 0], [s |-> "fmain", f |-> 0, i |-> 0]>>
+FramesOpts(slot) ==
+  CASE slot.s = "fdir"  -> {"none", "s", "a"} \cup (IF FrLen THEN {"len"} ELSE {})
+    [] slot.s = "frec"  -> {NoCall} \cup {[k |-> "call", f |-> 1, args |-> t]
+                                          : t \in ArgTuples((IF FrLen THEN {Cst} ELSE {}) \cup {Lvar(i) : i \in 1..NPf}, 0, NPf - 1)}
+    [] slot.s = "fmain" -> {[k |-> "call", f |-> 1, args |-> t]
+                            : t \in ArgTuples({Gvar(1), Gvar(2)} \cup (IF FrLen THEN {Cst} ELSE {}), 0, NPf)}
+FramesProgram(ch) ==
+  LET uses == ConcatSeqs([i \in 1..NPf |-> UseStmt(ch[i], Lvar(i))])
+      rec  == ch[NPf + 1]
+      lens == IF rec = NoCall THEN <<>> ELSE [i \in 1..NPf |-> [k |-> "len", v |-> Lvar(i)]]
+      mc   == CallStmt(ch[NPf + 2])
+  IN [funcs |-> <<[np |-> NPf, body |-> uses \o CallStmt(rec) \o lens]>>,
+      main  |-> <<[k |-> "s", v |-> Gvar(1)], [k |-> "a", v |-> Gvar(2)]>> \o mc \o mc
+                \o <<[k |-> "len", v |-> Gvar(1)], [k |-> "len", v |-> Gvar(2)]>>]
+
+\* ---- the "collect" family (Resolver.tla, section 4) ----
+\* CLines lines of three places each; a place holds an error site of some kind or a harmless statement; at most
+\* MaxSites sites: every way in which line order and column order of two or three sites can agree or disagree
+CollectSlots == [k \in 1..(CLines * 3) |-> [s |-> "site", f |-> ((k - 1) \div 3) + 1, i |-> ((k - 1) % 3) + 1]]
+NumChosen(chosen) == Cardinality({k \in 1..Len(chosen) : chosen[k] # "none"})
+CollectOpts(slot, chosen) == {"none"} \cup (IF NumChosen(chosen) < MaxSites THEN CKinds ELSE {})
+CollectSites(ch) ==
+  SelectSeq([k \in 1..Len(ch) |-> [l |-> CollectSlots[k].f, c |-> CollectSlots[k].i, k |-> ch[k]]], LAMBDA st : st.k # "none")
 =============================================================================
